@@ -98,25 +98,27 @@ func (P *Program) scanEmbeds(p *packages.Package) {
 		dir := filepath.Dir(p.CompiledGoFiles[i])
 		for _, d := range f.Decls {
 			gd, ok := d.(*ast.GenDecl)
-			if !ok || gd.Doc == nil {
+			if !ok {
 				continue
 			}
-			for _, c := range gd.Doc.List {
-				if !strings.HasPrefix(c.Text, "//go:embed ") {
+			for _, s := range gd.Specs {
+				vs, ok := s.(*ast.ValueSpec)
+				if !ok || len(vs.Names) != 1 {
 					continue
 				}
-				pat := strings.TrimSpace(strings.TrimPrefix(c.Text, "//go:embed "))
-				for _, s := range gd.Specs {
-					vs, ok := s.(*ast.ValueSpec)
-					if !ok || len(vs.Names) != 1 {
+				for _, doc := range []*ast.CommentGroup{vs.Doc, gd.Doc} {
+					if doc == nil {
 						continue
 					}
-					data, err := os.ReadFile(filepath.Join(dir, pat))
-					if err != nil {
-						data, err = os.ReadFile(filepath.Join(P.repo, strings.TrimPrefix(p.PkgPath, modPath), pat))
-					}
-					if err == nil {
-						P.embeds[p.PkgPath+"."+vs.Names[0].Name] = string(data)
+					for _, c := range doc.List {
+						if !strings.HasPrefix(c.Text, "//go:embed ") {
+							continue
+						}
+						pat := strings.TrimSpace(strings.TrimPrefix(c.Text, "//go:embed "))
+						data, err := os.ReadFile(filepath.Join(dir, pat))
+						if err == nil {
+							P.embeds[p.PkgPath+"."+vs.Names[0].Name] = string(data)
+						}
 					}
 				}
 			}
